@@ -207,6 +207,38 @@ fn check_type<T: ProgTy>(tname: &str, ctx: &Ctx, shard: usize, nshards: usize, t
                     break;
                 }
             }
+            // Clone / clone_from (also through Vec) copy a value whatever its representation and
+            // whatever the target held before
+            if mi <= 2 {
+                let src_absent: T = build_with(&shape, &slots[0], &mut MaskAbsent::new(masks[0]));
+                let src_zeros: T = build_with(&shape, &slots[0], &mut MaskAbsent::new(0));
+                let busy: Vec<f64> = (0..slots[0].len()).map(|i| 1.5 + i as f64).collect();
+                let target: T = build_all(&shape, &busy);
+                let want = parts(&src_zeros, &shape);
+                acc.observe(&format!("clone|{}", tname), ktot >= 1);
+                let res = guarded(|| {
+                    let c0 = parts(&src_absent.clone(), &shape);
+                    let mut t1 = target.clone();
+                    t1.clone_from(&src_absent);
+                    let mut v = vec![target.clone(), target.clone()];
+                    v.clone_from(&vec![src_absent.clone(), src_zeros.clone()]);
+                    let mut w = vec![target.clone(), target.clone()];
+                    w.clone_from_slice(&[src_zeros.clone(), src_absent.clone()]);
+                    vec![c0, parts(&t1, &shape), parts(&v[0], &shape), parts(&v[1], &shape), parts(&w[0], &shape), parts(&w[1], &shape)]
+                });
+                match res {
+                    Ok(all) => {
+                        let names = ["clone()", "clone_from", "Vec::clone_from[0]", "Vec::clone_from[1]", "clone_from_slice[0]", "clone_from_slice[1]"];
+                        for (nm, got) in names.iter().zip(&all) {
+                            if got != &want {
+                                acc.violate(format!("clone:{}:{}", nm, tname), format!("{} of a {} whose zero parts are absent (mask {}) gives {:?}, the value is {:?}", nm, tname, masks[0], got, want), case(&masks));
+                                break;
+                            }
+                        }
+                    }
+                    Err(m) => acc.violate(format!("clone:{}:panic", tname), format!("clone / clone_from on {} panicked: {}", tname, m), case(&masks)),
+                }
+            }
             // assignment history == the same history with non-assigning operators
             if let Some(pl) = &plain {
                 if let Ok(r2) = run(&masks, pl) {
